@@ -47,6 +47,12 @@ CLAIMED["C30"] = ("kex", "fault_enumeration",
    "Non-strict mode is exercised with both peers omitting the marker (guarded KEXINIT hook); a legacy peer facing a strict-capable one is not emulated. Stalled handshakes are ended by cutting the link.",
    "DESIGN.md section 4 H-kex")
 
+CLAIMED["C47"] = ("otr", "exploration",
+   "deterministic simulation of two OTR conversations over a simulated message network with seeded delivery order, fragmentation and fault injection (drop, duplicate, reorder, corrupt, inject)",
+   "Two real otr.Conversation state machines (fixed DSA keys, seeded randomness, generated FragmentSize per side) are driven by one event loop whose choices are on the tape: who sends what, which in-flight message or fragment is delivered next, which fault fires. Fault-free configuration with the exact oracle: both reach the encrypted state (incl. crossing AKE starts), every data message is delivered exactly once, unchanged, in order, SMP succeeds iff the secrets are equal, End is observed. Faulty configuration with the narrow oracle: Receive never panics on anything, output reported as encrypted is byte-identical to a message the peer sent, a modified data message yields an error or no output, SMP never completes with different secrets. Seeded sampling.",
+   "No instrumentation needed (no goroutines). Replay/duplicate rejection and recovery after faults are not asserted (the property does not state them); messages contain no NUL byte; see the spec's assumptions for protocol-design exclusions.",
+   "DESIGN.md section 4 H-otr")
+
 NA = {
  "C01": "pure function of (key, nonce, plaintext, ad): no schedule, clock, peer, stream fault or persisted state for a simulator to own; needs an independent AEAD and input generation (differential testing)",
  "C02": "pure predicate over byte strings; tampering here is input mutation, not an in-flight fault on a stateful stream",
@@ -90,7 +96,7 @@ NA = {
 PLANNED = {
   
  "C32": "H-sauth", "C33": "H-sauth", "C34": "H-cauth", "C35": "H-flow", "C36": "H-mux",
- "C43": "H-agent", "C47": "H-otr", "C50": "H-acme", "C51": "H-autocert",
+ "C43": "H-agent",  "C50": "H-acme", "C51": "H-autocert",
 }
 
 def main():
